@@ -42,10 +42,7 @@ def apply_patch(d, patch):
     return r.returncode == 0, r.stdout
 
 
-def evaluate(prop, tree, configs=("all", "default")):
-    """run the property's rules on a tree; returns (violated_rules:set, notes)"""
-    import check
-    import registry
+def build(tree, configs=("all", "default")):
     engine.REPO_DIR = tree
     facts = {}
     broken = {}
@@ -54,6 +51,15 @@ def evaluate(prop, tree, configs=("all", "default")):
             facts.update(engine.build_facts(tree, [c], target_tag="mut"))
         except engine.EngineError as ex:
             broken[c] = str(ex)
+    return facts, broken
+
+
+def evaluate(prop, tree, configs=("all", "default"), built=None):
+    """run the property's rules on a tree; returns (violated_rules:set, notes)"""
+    import check
+    import registry
+    facts, broken = built if built is not None else build(tree, configs)
+    engine.REPO_DIR = tree
     if not facts:
         return None, "does not compile: %s" % list(broken.values())[0][-400:]
     notes = []
